@@ -8,4 +8,5 @@ let () =
   | [| _; "sieve" |] -> drv_sieve ()
   | [| _; "world" |] -> drv_world ()
   | [| _; "pure" |] -> drv_pure ()
+  | [| _; "main" |] -> drv_main ()
   | _ -> prerr_endline "usage: modeldrv <driver>"; exit 2
